@@ -319,6 +319,46 @@ func (c *Check) Run() {
 		}()
 	}
 	wg.Wait()
+	// optional audit (GOVC_REPLAY_AUDIT=n): the replay templates themselves must pass on a tree where the
+	// obligations hold, otherwise a "reproduced on the real code" verdict would mean nothing
+	if n := os.Getenv("GOVC_REPLAY_AUDIT"); n != "" {
+		limit := 40
+		fmt.Sscan(n, &limit)
+		seen := map[string]bool{}
+		var srcs []string
+		var names []string
+		for _, o := range c.Obls {
+			if o.Replay == nil {
+				continue
+			}
+			var src string
+			func() {
+				defer func() { recover() }()
+				src = o.Replay(map[string]string{})
+			}()
+			if src == "" || seen[src] {
+				continue
+			}
+			seen[src] = true
+			srcs = append(srcs, src)
+			names = append(names, o.Name)
+		}
+		step := 1
+		if len(srcs) > limit {
+			step = len(srcs) / limit
+		}
+		bad := 0
+		ran := 0
+		for i := 0; i < len(srcs); i += step {
+			failed, out := runReplayTest(srcs[i])
+			ran++
+			if failed {
+				bad++
+				fmt.Fprintf(os.Stderr, "REPLAY-TEMPLATE-FAILS-ON-THIS-TREE %s\n%s\n", names[i], out)
+			}
+		}
+		fmt.Fprintf(os.Stderr, "replay audit: %d distinct templates, %d run, %d failing\n", len(srcs), ran, bad)
+	}
 	// optional audit (GOVC_VACUITY=1): which proved obligations have hypotheses that cannot hold at all
 	if os.Getenv("GOVC_VACUITY") != "" {
 		n := 0
